@@ -84,3 +84,13 @@ def ecies_unwrap(curve, priv, block):
     S = curve.mul(priv, (X, Y))
     k = sha256(S[0].to_bytes(32, "big")).digest()[:16]
     return A.cbc_decrypt(k, block[65:])
+
+
+def ecies_wrap(curve, recipient_pub, eph_scalar, session_key):
+    """Reference ECC block body: 04 || X || Y || AES-128-CBC(SHA-256(shared x)[:16], zero IV, key)."""
+    from hashlib import sha256
+    from . import aes as A
+    R = curve.mul(eph_scalar, curve.g)
+    S = curve.mul(eph_scalar, recipient_pub)
+    k = sha256(S[0].to_bytes(32, "big")).digest()[:16]
+    return b"\x04" + R[0].to_bytes(32, "big") + R[1].to_bytes(32, "big") + A.cbc_encrypt(k, session_key)
